@@ -6,7 +6,7 @@ code departs from it have `…Current` variants in `CohBase.lean` and counterexa
 
 Line protocol (after the property id):
   cache <what> <NFFT> <noverlap|dcache> <Fs> <win> <scale_by_freq 0/1> <prefer_speed 0/1> <lb> <ub> <ij> <chan0> …
-      what ∈ freqs | coherency | psd | relphase | phase     (answer: `ok <intended> <current>`) ;  ij = `i:j;i:j;…`
+      what ∈ freqs | coherency | psd | relphase | phase     (answer: `ok <intended> <current> <current-grid-only>`) ;  ij = `i:j;i:j;…`
   seed <NFFT> <noverlap|dcache> <Fs> <win> <sbf> <psm> <lb> <ub> <nseed> <seed chans…> <target chans…>
       nseed = 0 means a 1-d seed (one channel, result squeezed)
   dense <NFFT> <noverlap|dfunc> <Fs> <win> <lb> <ub> <ij> <chan0> …    (coherency through welchBin + coherencySpec,
@@ -67,8 +67,8 @@ def parseCfg? (sN sO sFs sWin sSbf sPsm sLb sUb : String) (dflt : Nat → Nat) :
 
 /-- `cur = false`: intended behaviour; `cur = true`: today's source (frequency grid from
     `get_freqs`, default overlap ⌈NFFT/2⌉, `Pxx[[0, -1]] /= 2`).  Every line is answered with both,
-    `ok <intended> <current>`: the implementation has to agree with one of them. -/
-def cacheData (cur : Bool) (args : List String) : Option String := do
+    `ok <intended> <current> <current grid only>`: the implementation has to agree with one of them. -/
+def cacheData (curG cur : Bool) (args : List String) : Option String := do
   match args with
   | what :: sN :: sO :: sFs :: sWin :: sSbf :: sPsm :: sLb :: sUb :: sIj :: chans =>
     match ← parseCfg? sN sO sFs sWin sSbf sPsm sLb sUb (if cur then cacheDefaultOverlapCurrent else cacheDefaultOverlap) with
@@ -76,7 +76,7 @@ def cacheData (cur : Bool) (args : List String) : Option String := do
     | .ok c =>
     let ij ← parsePairs? sIj
     let X ← parseChans? chans
-    let f := if cur then getFreqsCurrent c.Fs c.NFFT else cacheFreqs c.Fs c.NFFT
+    let f := if curG then getFreqsCurrent c.Fs c.NFFT else cacheFreqs c.Fs c.NFFT
     let (l, u) := getBounds f c.lb c.ub
     let nb := u - l
     let nv : Cx := normVal c.w (Cx.ofF c.Fs) c.NFFT c.sbf
@@ -84,7 +84,7 @@ def cacheData (cur : Bool) (args : List String) : Option String := do
     let chansUsed := uniqSorted (ij.flatMap fun (a, b) => [a, b])
     let hdr := ""
     match what with
-    | "freqs" => return Proto.showFloatList (f ++ (f.drop l).take nb)
+    | "freqs" => return Proto.showFloatList ((f.drop l).take nb)   -- the frequencies of the cached band
     | "coherency" =>
         return hdr ++ showCx (ij.flatMap fun (a, b) =>
           (List.range nb).map fun t => cacheCoherency c.psm c.w nv c.NFFT c.step (ch a) (ch b) l t)
@@ -102,15 +102,18 @@ def cacheData (cur : Bool) (args : List String) : Option String := do
     | _ => none
   | _ => none
 
-def both (f : Bool → Option String) : Option String := do
-  let a ← f false
-  let b ← f true
+/-- answers: intended; today's source; today's frequency grid with everything else as intended
+    (the state of the tree once the repairs that do not touch `get_freqs` are in) -/
+def both (f : Bool → Bool → Option String) : Option String := do
+  let a ← f false false
+  let b ← f true true
+  let c ← f true false
   if a.startsWith "err" ∧ a = b then return a
-  return "ok " ++ a ++ " " ++ b
+  return "ok " ++ a ++ " " ++ b ++ " " ++ c
 
-def handleCache (args : List String) : Option String := both fun cur => cacheData cur args
+def handleCache (args : List String) : Option String := both fun g cur => cacheData g cur args
 
-def seedData (cur : Bool) (args : List String) : Option String := do
+def seedData (curG cur : Bool) (args : List String) : Option String := do
   match args with
   | sN :: sO :: sFs :: sWin :: sSbf :: sPsm :: sLb :: sUb :: sNs :: chans =>
     match ← parseCfg? sN sO sFs sWin sSbf sPsm sLb sUb (if cur then cacheDefaultOverlapCurrent else cacheDefaultOverlap) with
@@ -121,7 +124,7 @@ def seedData (cur : Bool) (args : List String) : Option String := do
     let X ← parseChans? chans
     let seeds := X.take ns
     let targets := X.drop ns
-    let f := if cur then getFreqsCurrent c.Fs c.NFFT else cacheFreqs c.Fs c.NFFT
+    let f := if curG then getFreqsCurrent c.Fs c.NFFT else cacheFreqs c.Fs c.NFFT
     let (l, u) := getBounds f c.lb c.ub
     let nb := u - l
     let nv : Cx := normVal c.w (Cx.ofF c.Fs) c.NFFT c.sbf
@@ -131,7 +134,7 @@ def seedData (cur : Bool) (args : List String) : Option String := do
         cacheCoherency c.psm c.w nv c.NFFT c.step sd tg l t)
   | _ => none
 
-def handleSeed (args : List String) : Option String := both fun cur => seedData cur args
+def handleSeed (args : List String) : Option String := both fun g cur => seedData g cur args
 
 def handleDense (args : List String) : Option String := do
   match args with
@@ -149,8 +152,19 @@ def handleDense (args : List String) : Option String := do
       (List.range (u - l)).map fun t => coherencySpec (wb a b (l + t)) (wb a a (l + t)) (wb b b (l + t)))
   | _ => none
 
+/-- `grid <Fs> <N>`: the two frequency formulas of the generic model, `ok <k·Fs/N …> <linspace …>` -/
+def handleGrid (args : List String) : Option String := do
+  match args with
+  | [sFs, sN] =>
+    let Fs ← Proto.parseFloat? sFs
+    let N ← sN.toNat?
+    return "ok " ++ showRe ((List.range (nFreq N)).map fun k => welchFreq (Cx.ofF Fs) N k) ++ " " ++
+      showRe ((List.range (nFreq N)).map fun k => linspaceFreq (Cx.ofF Fs) N k)
+  | _ => none
+
 def handle (args : List String) : String :=
   match args with
+  | "grid" :: rest => (handleGrid rest).getD "bad-op"
   | "cache" :: rest => (handleCache rest).getD "bad-op"
   | "seed" :: rest => (handleSeed rest).getD "bad-op"
   | "dense" :: rest => (handleDense rest).getD "bad-op"
